@@ -475,44 +475,46 @@ def _load_json(
     if load_order:
         old_reordering = bdd.configure(
             reordering=False)
-    for line in fd:
-        d = _parse_line(line)
-        _store_line(d, bdd, context, cache)
-    roots = context['roots']
-    if hasattr(roots, 'items'):
-        roots = {
-            name: _node_from_int(k, bdd, cache)
-            for name, k in roots.items()}
-    else:
-        roots = [
-            _node_from_int(k, bdd, cache)
-            for k in roots]
-    # rm refs to cached nodes
-    for uid in cache:
-        u = _node_from_int(int(uid), bdd, cache)
-        if u.ref < 2:
-            raise AssertionError(u.ref)
-            # +1 ref due to `incref` in `_make_node`
-            # +1 ref due to the `_node_from_int`
-            #   call for `u`
-        if load_order and u.ref < 3:
-            raise AssertionError(u.ref)
-            # +1 ref due to `incref` in `_make_node`
-            # +1 ref due to either:
-            #   - being a successor node
-            #   - being a root node
-            #     (thus referenced in `roots` above)
-            # +1 ref due to the `_node_from_int`
-            #   call for `u`
-        bdd.decref(u, _direct=True)
-            # this module is unusual,
-            # in that `incref` and `decref` need
-            # to be called on different `Function`
-            # instances for the same node
-    bdd.assert_consistent()
-    if load_order:
-        bdd.configure(
-            reordering=old_reordering)
+    try:
+        for line in fd:
+            d = _parse_line(line)
+            _store_line(d, bdd, context, cache)
+        roots = context['roots']
+        if hasattr(roots, 'items'):
+            roots = {
+                name: _node_from_int(k, bdd, cache)
+                for name, k in roots.items()}
+        else:
+            roots = [
+                _node_from_int(k, bdd, cache)
+                for k in roots]
+        # rm refs to cached nodes
+        for uid in cache:
+            u = _node_from_int(int(uid), bdd, cache)
+            if u.ref < 2:
+                raise AssertionError(u.ref)
+                # +1 ref due to `incref` in `_make_node`
+                # +1 ref due to the `_node_from_int`
+                #   call for `u`
+            if load_order and u.ref < 3:
+                raise AssertionError(u.ref)
+                # +1 ref due to `incref` in `_make_node`
+                # +1 ref due to either:
+                #   - being a successor node
+                #   - being a root node
+                #     (thus referenced in `roots` above)
+                # +1 ref due to the `_node_from_int`
+                #   call for `u`
+            bdd.decref(u, _direct=True)
+                # this module is unusual,
+                # in that `incref` and `decref` need
+                # to be called on different `Function`
+                # instances for the same node
+        bdd.assert_consistent()
+    finally:
+        if load_order:
+            bdd.configure(
+                reordering=old_reordering['reordering'])
     return roots
 
 
